@@ -352,6 +352,11 @@ def _stored_names(fn) -> Set[str]:
     return out
 
 
+def _signed_literal(x) -> bool:
+    return isinstance(x, ast.UnaryOp) and isinstance(x.op, (ast.USub, ast.UAdd)) and isinstance(x.operand, ast.Constant) \
+        and isinstance(x.operand.value, (int, float)) and not isinstance(x.operand.value, bool)
+
+
 def _sink_returns(fn: ast.FunctionDef) -> None:
     """`if c: r = A else: r = B` / `try: r = A except E: r = B`, immediately followed by `return r`, is the multi-exit form
     `if c: return A else: return B` / `try: return A except E: return B` (r is a plain local, not read in between)."""
@@ -373,6 +378,7 @@ def _sink_returns(fn: ast.FunctionDef) -> None:
         last = block[-1]
         if isinstance(last, ast.Assign):
             block[-1] = ast.copy_location(ast.Return(value=last.value), last)
+            block[-1]._xsa_sunk = True
         elif isinstance(last, ast.If):
             sink(last.body, x)
             sink(last.orelse, x)
@@ -394,8 +400,18 @@ def _sink_returns(fn: ast.FunctionDef) -> None:
     while changed:
         changed = False
         for blk in blocks(fn):
-            if len(blk) >= 2 and isinstance(blk[-1], ast.Return) and isinstance(blk[-1].value, ast.Name) and isinstance(blk[-2], (ast.If, ast.Try)):
-                x = blk[-1].value.id
+            if len(blk) >= 2 and isinstance(blk[-1], ast.Return) and blk[-1].value is not None and isinstance(blk[-2], (ast.If, ast.Try)):
+                # the returned expression is the local itself, or reads it first and once (`return base[self.index]`)
+                rv = blk[-1].value
+                first = rv
+                while isinstance(first, (ast.Subscript, ast.Attribute)) or (isinstance(first, ast.Call) and isinstance(first.func, ast.Attribute)):
+                    first = first.value if isinstance(first, (ast.Subscript, ast.Attribute)) else first.func
+                if not isinstance(first, ast.Name):
+                    continue
+                x = first.id
+                if sum(1 for n in ast.walk(rv) if isinstance(n, ast.Name) and n.id == x) != 1:
+                    continue
+                wrap = None if rv is first else rv
                 st = blk[-2]
                 if isinstance(st, ast.If) and not st.orelse:
                     continue
@@ -405,7 +421,8 @@ def _sink_returns(fn: ast.FunctionDef) -> None:
                 reads = [n for n in ast.walk(st) if isinstance(n, ast.Name) and n.id == x and isinstance(n.ctx, ast.Load)]
                 if reads or not ends_with_assign([st], x):
                     continue
-                sink([st], x) if False else None
+                if wrap is not None and isinstance(st, ast.Try):
+                    continue        # `try: r = A` ... `return r[i]`: the subscript would move into the try
                 if isinstance(st, ast.If):
                     sink(st.body, x)
                     sink(st.orelse, x)
@@ -413,6 +430,13 @@ def _sink_returns(fn: ast.FunctionDef) -> None:
                     sink(st.body, x)
                     for h in st.handlers:
                         sink(h.body, x)
+                if wrap is not None:
+                    for n in ast.walk(st):
+                        if isinstance(n, ast.Return) and getattr(n, "_xsa_sunk", False):
+                            n.value = _SubstName({x: n.value}).visit(copy.deepcopy(wrap))
+                for n in ast.walk(st):
+                    if isinstance(n, ast.Return) and getattr(n, "_xsa_sunk", False):
+                        n._xsa_sunk = False
                 del blk[-1]
                 changed = True
                 break
@@ -977,7 +1001,7 @@ class Normalizer:
                 return copy.deepcopy(binds[e.id])
             mc = getattr(self, "module_consts", None) or {}
             v = mc.get(e.id)
-            if isinstance(v, (ast.Tuple, ast.List)) and 0 < len(v.elts) <= 6 and all(isinstance(x, ast.Constant) for x in v.elts) \
+            if isinstance(v, (ast.Tuple, ast.List)) and 0 < len(v.elts) <= 8 and all(isinstance(x, ast.Constant) for x in v.elts) \
                     and e.id not in getattr(self, "_assigned_names", ()):
                 return copy.deepcopy(v)
             return None
@@ -1121,7 +1145,8 @@ class Normalizer:
         if isinstance(st, ast.For) and isinstance(st.iter, (ast.Tuple, ast.List)) and isinstance(st.target, ast.Tuple) \
                 and all(isinstance(x, ast.Name) for x in st.target.elts) and 0 < len(st.iter.elts) <= 4 and not st.orelse \
                 and all(isinstance(r, (ast.Tuple, ast.List)) and len(r.elts) == len(st.target.elts)
-                        and all(isinstance(x, (ast.Name, ast.Attribute, ast.Constant, ast.Subscript)) for x in r.elts) for r in st.iter.elts) \
+                        and all(isinstance(x, (ast.Name, ast.Attribute, ast.Constant, ast.Subscript)) or _signed_literal(x) for x in r.elts)
+                        for r in st.iter.elts) \
                 and len(st.body) <= 4 and not any(isinstance(n, (ast.Break, ast.Continue)) for n in _walk_own(st.body, loops=False)):
             stored = {n.id for b in st.body for n in ast.walk(b) if isinstance(n, ast.Name) and isinstance(n.ctx, (ast.Store, ast.Del))}
             names = [x.id for x in st.target.elts]
@@ -1131,7 +1156,7 @@ class Normalizer:
                 for r in st.iter.elts:
                     sub = {}
                     for nm, x in zip(names, r.elts):
-                        if isinstance(x, ast.Constant) and nm not in stored:
+                        if (isinstance(x, ast.Constant) or _signed_literal(x)) and nm not in stored:
                             sub[nm] = x
                         else:
                             a = ast.copy_location(ast.Assign(targets=[ast.Name(id=nm, ctx=ast.Store())], value=copy.deepcopy(x), lineno=st.lineno), st)
@@ -1239,7 +1264,7 @@ class Normalizer:
             low = self._lower_ifexp_stmt(st)
             if low is not None:
                 return self._stmt(low, cls, depth)
-        if self.lower_comps:
+        if self.lower_comps or self._comp_calls_helper(st, cls):
             low = self._lower_comp_stmt(st)
             if low is not None:
                 return self._block(low, cls, depth)
@@ -1540,6 +1565,8 @@ class Normalizer:
         locals_ = _stored_names(ast.Module(body=body, type_ignores=[])) | {a.arg for a in fn.args.args + fn.args.kwonlyargs + fn.args.posonlyargs}
         if fn.args.vararg:
             locals_.add(fn.args.vararg.arg)
+        if fn.args.kwarg:
+            locals_.add(fn.args.kwarg.arg)
         mapping = {n: f"{n}__{k}" for n in locals_}
         mapping[ret] = ret
         if selfname and bind_self is True:
@@ -1577,6 +1604,19 @@ class Normalizer:
             sub = _SubstName(consts)
             body = [sub.visit(s) for s in body]
             binds = [(pn, v) for pn, v in binds if mapping.get(pn, pn) not in consts]
+        # **kwargs that the helper only forwards (`g(x, **kwargs)`): the collected keywords written out at the forwarding call
+        if fn.args.kwarg is not None:
+            kwn = mapping.get(fn.args.kwarg.arg, fn.args.kwarg.arg)
+            kwv = next((v for pn, v in binds if pn == fn.args.kwarg.arg), None)
+            uses = [n for x in body for n in ast.walk(x) if isinstance(n, ast.Name) and n.id == kwn]
+            fwd = [(c, kw) for x in body for c in ast.walk(x) if isinstance(c, ast.Call) for kw in c.keywords
+                   if kw.arg is None and isinstance(kw.value, ast.Name) and kw.value.id == kwn]
+            simple = isinstance(kwv, ast.Dict) and all(isinstance(v, (ast.Name, ast.Attribute, ast.Constant, ast.Subscript)) for v in kwv.values)
+            if uses and len(uses) == len(fwd) and simple and fn.args.kwarg.arg not in rebound:
+                for c, kw in fwd:
+                    i_ = c.keywords.index(kw)
+                    c.keywords[i_:i_ + 1] = [ast.keyword(arg=k_.value, value=copy.deepcopy(v_)) for k_, v_ in zip(kwv.keys, kwv.values)]
+                binds = [(pn, v) for pn, v in binds if pn != fn.args.kwarg.arg]
         # a parameter bound to a one-expression lambda that the helper only calls: the calls are that expression
         lam = {}
         for pn, v in binds:
@@ -1711,8 +1751,8 @@ class Normalizer:
 
     def _bind(self, call: ast.Call, fn, bind_self, k) -> List[Tuple[str, ast.expr]]:
         a = fn.args
-        if a.kwarg or a.posonlyargs:
-            raise _CannotInline("**kwargs / positional-only parameters in the helper's signature")
+        if a.posonlyargs:
+            raise _CannotInline("positional-only parameters in the helper's signature")
         if any(isinstance(x, ast.Starred) for x in call.args) or any(kw.arg is None for kw in call.keywords):
             raise _CannotInline("star arguments at the call site")
         params = [p.arg for p in a.args]
@@ -1738,9 +1778,15 @@ class Normalizer:
         given: Dict[str, ast.expr] = {}
         for p, v in zip(params, pos):
             given[p] = v
+        surplus: List[ast.keyword] = []
         for kw in call.keywords:
-            if kw.arg in given or (kw.arg not in params and kw.arg not in [x.arg for x in a.kwonlyargs]):
+            if kw.arg in given:
                 raise _CannotInline(f"keyword {kw.arg} does not match the helper's signature")
+            if kw.arg not in params and kw.arg not in [x.arg for x in a.kwonlyargs]:
+                if a.kwarg is None:
+                    raise _CannotInline(f"keyword {kw.arg} does not match the helper's signature")
+                surplus.append(kw)      # collected by **kwargs
+                continue
             given[kw.arg] = kw.value
         for p in params + [x.arg for x in a.kwonlyargs]:
             if p in given:
@@ -1751,6 +1797,8 @@ class Normalizer:
                 raise _CannotInline(f"missing argument {p}")
         if extra is not None:
             out.append((a.vararg.arg, extra))
+        if a.kwarg is not None:
+            out.append((a.kwarg.arg, ast.Dict(keys=[ast.Constant(value=kw.arg) for kw in surplus], values=[kw.value for kw in surplus])))
         return out
 
     # ------------------------------------------------------------------ lowering
@@ -1814,6 +1862,23 @@ class Normalizer:
             v = st.value
             return mk(v.test, ast.copy_location(ast.Return(value=v.body), st), ast.copy_location(ast.Return(value=v.orelse), st))
         return None
+
+    def _comp_calls_helper(self, st, cls) -> bool:
+        """a comprehension assigned / returned whose element expression calls a helper that would be inlined as a statement: only the
+        loop form can show what the helper does per element"""
+        v = getattr(st, "value", None)
+        if not isinstance(st, (ast.Assign, ast.Return)) or not isinstance(v, (ast.ListComp, ast.SetComp, ast.DictComp)):
+            return False
+        parts = [v.key, v.value] if isinstance(v, ast.DictComp) else [v.elt]
+        for part in parts:
+            for c in ast.walk(part):
+                if isinstance(c, ast.Call):
+                    r = self.resolve(c, cls)
+                    if r is not None and r[1].name not in self.keep and r[0] not in self.keep and r[0] not in self._stack:
+                        body = A.strip_docstring(r[1].body)
+                        if not (len(body) == 1 and isinstance(body[0], ast.Return)):      # one-expression helpers are substituted in place anyway
+                            return True
+        return False
 
     def _lower_comp_stmt(self, st) -> Optional[List[ast.stmt]]:
         comp = None
@@ -2008,7 +2073,8 @@ def make_resolver(repo, module, private_only: bool = True, also: Optional[Set[st
                 return None
             return f"{k2.name}.{fn.name}", fn, k, False     # False: the receiver is bound to the helper's `self`
         cur = getattr(resolve, "current_fn", None)
-        if isinstance(f, ast.Attribute) and isinstance(f.value, ast.Name) and f.value.id not in ("self", "cls") and cur is not None and wanted(f.attr):
+        if isinstance(f, ast.Attribute) and isinstance(f.value, ast.Name) and f.value.id not in ("self", "cls") and cur is not None \
+                and f.attr.startswith("_") and not f.attr.startswith("__"):
             # local.<helper>(...) where `local` is bound exactly once, to a fresh instance of a class of the package
             k = _class_of_expr(repo, f.value, cur)
             params = {a.arg for a in cur.args.args + cur.args.kwonlyargs + cur.args.posonlyargs}
